@@ -49,71 +49,33 @@ static int replay_failed = 0;
 #define IN(nd, rv) (nd)
 #endif
 
-/* ------------------------------------------------------------------ symbolic environment */
-static unsigned char in_matched[KEV + 1][R_NT + 1];   /* [event slot][REF transition] */
-static unsigned char in_cond[KEV + 1][R_NT + 1];
-static unsigned char in_failN[R_NS][2], in_failX[R_NS][2], in_failT[R_NT + 1];
-static int in_iq, in_eq;                               /* pending internal / external events at call time */
-/* pre-state (copied out for the counterexample trace) */
+#define INV_INTERLEAVED 1   /* the emitted C cancels and starts invocations in one pass over the states */
+#include "expect.h"
+/* pre-state and inputs, copied out for the counterexample trace */
 unsigned char cex_config[NSB], cex_history[NSB], cex_invocations[NSB], cex_initialized[NSB], cex_flags;
 unsigned char cex_matched[KEV + 1][R_NT + 1], cex_cond[KEV + 1][R_NT + 1], cex_failN[R_NS][2], cex_failX[R_NS][2], cex_failT[R_NT + 1];
 int cex_iq, cex_eq, cex_ret, cex_refret;
 unsigned cex_ref_F, cex_ref_exited, cex_ref_entered, cex_ref_conf, cex_conf1;
-
-/* ------------------------------------------------------------------ expectation (from REF) */
-static struct {
-	int ret; unsigned char flags1;
-	int kind;                       /* 0 nothing, 1 initial step, 2 microstep, 3 finalize */
-	rset F; uint8_t ord[R_MAXT];
-	ref_step st;
-	rset fin_exit;                  /* finalize: states whose onexit runs */
-	unsigned char deq[KEV + 2];     /* deq[k]: 0 none, 1 internal, 2 external for slot k (1-based) */
-	rset U[KEV + 2], I[KEV + 2];    /* invoke phase at round r: uninvoke / invoke callbacks */
-	rset conf1, inv1, ini1; rset hist1[R_MAXS];
-} X;
-/* what the implementation did */
-static unsigned char seenN[R_NS], seenX[R_NS], seenT[R_NT + 1], seenDone[R_NS], seenDeq[KEV + 2], seenScript;
-static rset seenU[KEV + 2], seenI[KEV + 2];
-static long last_key = -1;
-static int a_iq, a_eq, a_slot;
 static int evslots[KEV + 2];
-
-#define MB (1000L * (KEV + 2))
-#define KEY_DEQ(k) (1000L * (k))
-#define KEY_INV(r, s, un) (1000L * (r) + 100 + 2 * (s) + ((un) ? 0 : 1))
-#define KEY_X(s, sub) (MB + (long)(R_NS - 1 - (s)) * 8 + (sub))
-#define KEY_T(t, e) (MB + 8L * R_NS + (long)X.ord[t] * 2 + (e))
-#define KEY_N(s, sub) (MB + 10L * R_NS + (long)(s) * 16 + (sub))
-
-static void at_key(long key) {
-	__CPROVER_assert(key > last_key, "C04: observable actions happen in the order the reference prescribes (exits in reverse document order, then transition content in selection order, then entries in document order: onentry, initial content, history content, done events)");
-	last_key = key;
-}
 static int parse_num(const char* s) { int v = 0; while (*s >= '0' && *s <= '9') { v = v * 10 + (*s - '0'); s++; } return v; }
 static const char* skip_num(const char* s) { while (*s >= '0' && *s <= '9') s++; return s; }
 
 /* ------------------------------------------------------------------ implementation side: callbacks */
 static void* cb_deq_int(const uscxml_ctx* ctx) {
-	if (a_iq > 0 && a_slot < KEV) {
-		a_iq--; a_slot++;
 #if MODE == 1
-		__CPROVER_assert(X.deq[a_slot] == 1, "C04: an internal event is dequeued exactly when the reference does");
-		at_key(KEY_DEQ(a_slot)); seenDeq[a_slot]++;
-#endif
-		return &evslots[a_slot];
-	}
+	return obs_deq(1) ? &evslots[a_slot] : NULL;
+#else
+	if (a_iq > 0 && a_slot < KEV) { a_iq--; a_slot++; return &evslots[a_slot]; }
 	return NULL;
+#endif
 }
 static void* cb_deq_ext(const uscxml_ctx* ctx) {
-	if (a_eq > 0 && a_slot < KEV) {
-		a_eq--; a_slot++;
 #if MODE == 1
-		__CPROVER_assert(X.deq[a_slot] == 2, "C04: an external event is dequeued exactly when the reference does (internal queue empty, no eventless transition enabled)");
-		at_key(KEY_DEQ(a_slot)); seenDeq[a_slot]++;
-#endif
-		return &evslots[a_slot];
-	}
+	return obs_deq(2) ? &evslots[a_slot] : NULL;
+#else
+	if (a_eq > 0 && a_slot < KEV) { a_eq--; a_slot++; return &evslots[a_slot]; }
 	return NULL;
+#endif
 }
 static int cb_is_matched(const uscxml_ctx* ctx, const uscxml_transition* t, const void* e) {
 	int ti = (int)(t - ctx->machine->transitions);
@@ -123,13 +85,10 @@ static int cb_is_matched(const uscxml_ctx* ctx, const uscxml_transition* t, cons
 static int cb_is_true(const uscxml_ctx* ctx, const char* expr) { return in_cond[a_slot][parse_num(expr + 1)]; }
 static int cb_raise_done(const uscxml_ctx* ctx, const uscxml_state* s, const uscxml_elem_donedata* d) {
 	int p = SMAP[(int)(s - ctx->machine->states)];
-	a_iq++;
 #if MODE == 1
-	__CPROVER_assert(X.kind == 1 || X.kind == 2, "C04: done event only in a micro step");
-	__CPROVER_assert(seenDone[p] < X.st.done[p], "C04: done.state event raised that the reference does not raise (or raised twice)");
-	int f = X.st.done_at[p];
-	if (seenDone[p] == 0) at_key(KEY_N(f, X.st.done_key[p]));
-	seenDone[p]++;
+	obs_done(p);
+#else
+	a_iq++;
 #endif
 	return USCXML_ERR_OK;
 }
@@ -139,25 +98,13 @@ static int cb_log(const uscxml_ctx* ctx, const char* label, const char* expr) {
 	if (k == 'T') {
 		int e = parse_num(p);
 #if MODE == 1
-		__CPROVER_assert(!((seenT[id] >> e) & 1), "C04: transition content executed twice");
-		seenT[id] |= (unsigned char)(1 << e);
-		if (CH.tkind[id] == RT_NORMAL) { __CPROVER_assert(X.kind == 2 && RHAS(X.F, id), "C04: content of a transition executed that is not in the optimal transition set"); at_key(KEY_T(id, e)); }
-		else if (CH.tkind[id] == RT_INITIAL) { int st = CH.parent[CH.tsrc[id]]; __CPROVER_assert((X.kind == 1 || X.kind == 2) && RHAS(X.st.default_entry, st), "C04: <initial> transition content executed although its state is not entered by default"); at_key(KEY_N(st, 4 + e)); }
-		else { int st = CH.parent[CH.tsrc[id]]; __CPROVER_assert((X.kind == 1 || X.kind == 2) && X.st.hist_content[st] == id, "C04: history default content executed although the reference does not"); at_key(KEY_N(st, 6 + e)); }
+		obs_trans_content(id, e);
 #endif
 		return (e == 0 && in_failT[id]) ? USCXML_ERR_EXEC_CONTENT : USCXML_ERR_OK;
 	}
 	int b = parse_num(p); int e = parse_num(skip_num(p) + 1);
 #if MODE == 1
-	if (k == 'N') {
-		__CPROVER_assert((X.kind == 1 || X.kind == 2) && RHAS(X.st.entered, id), "C04: onentry handler of a state the reference does not enter");
-		__CPROVER_assert(!((seenN[id] >> (b * 2 + e)) & 1), "C04: onentry element executed twice");
-		seenN[id] |= (unsigned char)(1 << (b * 2 + e)); at_key(KEY_N(id, b * 2 + e));
-	} else {
-		__CPROVER_assert((X.kind == 2 && RHAS(X.st.exited, id)) || (X.kind == 3 && RHAS(X.fin_exit, id)), "C04: onexit handler of a state the reference does not exit");
-		__CPROVER_assert(!((seenX[id] >> (b * 2 + e)) & 1), "C04: onexit element executed twice");
-		seenX[id] |= (unsigned char)(1 << (b * 2 + e)); at_key(KEY_X(id, b * 2 + e));
-	}
+	obs_block(k, id, b, e);
 #endif
 	if (e == 0 && (k == 'N' ? in_failN[id][b] : in_failX[id][b])) return USCXML_ERR_EXEC_CONTENT;
 	return USCXML_ERR_OK;
@@ -165,9 +112,7 @@ static int cb_log(const uscxml_ctx* ctx, const char* label, const char* expr) {
 static int cb_invoke(const uscxml_ctx* ctx, const uscxml_state* s, const uscxml_elem_invoke* inv, unsigned char uninvoke) {
 	int i = SMAP[(int)(s - ctx->machine->states)];
 #if MODE == 1
-	if (X.kind == 3) { __CPROVER_assert(uninvoke && RHAS(X.U[0], i) && !RHAS(seenU[0], i), "C04: uninvoke at finalisation as the reference"); seenU[0] |= RBIT(i); at_key(KEY_X(i, 7)); }
-	else if (uninvoke) { __CPROVER_assert(RHAS(X.U[a_slot], i) && !RHAS(seenU[a_slot], i), "C04: uninvoke exactly when the reference cancels the invocation"); seenU[a_slot] |= RBIT(i); at_key(KEY_INV(a_slot, i, 1)); }
-	else { __CPROVER_assert(RHAS(X.I[a_slot], i) && !RHAS(seenI[a_slot], i), "C04: invoke exactly when the reference starts the invocation"); seenI[a_slot] |= RBIT(i); at_key(KEY_INV(a_slot, i, 0)); }
+	obs_invoke(i, uninvoke);
 #endif
 	return USCXML_ERR_OK;
 }
@@ -205,7 +150,7 @@ static void reference(unsigned char flags0, rset conf, rset hist0, rset inv, rse
 	int b_iq = in_iq, b_eq = in_eq, b_slot = 0;
 	unsigned char bf = flags0;
 	X.ret = -1; X.kind = 0; X.F = 0; X.fin_exit = 0;
-	for (int k = 0; k < KEV + 2; k++) { X.deq[k] = 0; X.U[k] = 0; X.I[k] = 0; }
+	for (int k = 0; k < KEV + 2; k++) { X.deq[k] = 0; X.U[k] = 0; X.I[k] = 0; X.stable[k] = 0; }
 	X.st.exited = 0; X.st.entered = 0; X.st.default_entry = 0; X.st.topfinal = 0; X.st.reenter = 0;
 	for (int s = 0; s < R_MAXS; s++) { X.st.hist_content[s] = -1; X.st.done[s] = 0; X.st.done_at[s] = 0; X.st.done_key[s] = 0; }
 	if (bf & 0x10) X.ret = USCXML_ERR_DONE;
@@ -331,33 +276,16 @@ int main(void) {
 	return 0;
 #else
 	/* ---------------- completeness: everything the reference does, the implementation did */
-	__CPROVER_assert(ret == X.ret, "C04: return code of uscxml_step equals the reference");
-	for (int k = 1; k <= KEV; k++) __CPROVER_assert(seenDeq[k] == (X.deq[k] != 0), "C04: every event the reference dequeues is dequeued");
-	for (int r = 0; r <= KEV; r++) __CPROVER_assert(seenU[r] == X.U[r] && seenI[r] == X.I[r], "C04: every invoke/uninvoke of the reference happened");
-	for (int s = 0; s < R_NS; s++) {
-		unsigned char expN = 0, expX = 0;
-		if ((X.kind == 1 || X.kind == 2) && RHAS(X.st.entered, s)) for (int b = 0; b < CH_n_onentry[s] && b < 2; b++) { expN |= (unsigned char)(1 << (b * 2)); if (!in_failN[s][b]) expN |= (unsigned char)(1 << (b * 2 + 1)); }
-		if ((X.kind == 2 && RHAS(X.st.exited, s)) || (X.kind == 3 && RHAS(X.fin_exit, s))) for (int b = 0; b < CH_n_onexit[s] && b < 2; b++) { expX |= (unsigned char)(1 << (b * 2)); if (!in_failX[s][b]) expX |= (unsigned char)(1 << (b * 2 + 1)); }
-		__CPROVER_assert(seenN[s] == expN, "C04: exactly the onentry elements of the entered states ran (a failing element skips only the rest of its block)");
-		__CPROVER_assert(seenX[s] == expX, "C04: exactly the onexit elements of the exited states ran (a failing element skips only the rest of its block)");
-		__CPROVER_assert(seenDone[s] == ((X.kind == 1 || X.kind == 2) ? X.st.done[s] : 0), "C04: exactly the done.state events of the reference were raised");
-	}
-	for (int t = 0; t < R_NT; t++) {
-		unsigned char exp = 0; int on = 0;
-		if (CH.tkind[t] == RT_NORMAL) on = X.kind == 2 && RHAS(X.F, t);
-		else if (CH.tkind[t] == RT_INITIAL) on = (X.kind == 1 || X.kind == 2) && RHAS(X.st.default_entry, CH.parent[CH.tsrc[t]]);
-		else on = (X.kind == 1 || X.kind == 2) && X.st.hist_content[CH.parent[CH.tsrc[t]]] == t;
-		if (on && CH_tcontent[t]) { exp = 1; if (!in_failT[t]) exp |= 2; }
-		__CPROVER_assert(seenT[t] == exp, "C04: exactly the transition content of the reference ran");
-	}
+	A(T_LIFE, ret == X.ret, "C10: return code of uscxml_step follows the documented life-cycle (equals the reference)");
+	compare_actions();
 	if (!(flags0 & 0x14)) {
-		__CPROVER_assert(conf1 == X.conf1, "C04: configuration after the step equals the reference");
+		A(T_BEH, conf1 == X.conf1, "C04: configuration after the step equals the reference");
 		for (int h = 0; h < R_NS; h++) if (r_is_history(&CH, h))
-			__CPROVER_assert(w3c_hist(h, hist1) == X.hist1[h], "C04: remembered history equals the reference");
-		__CPROVER_assert(ini1 == X.ini1, "C04: initialised-data set equals the reference");
+			A(T_BEH, w3c_hist(h, hist1) == X.hist1[h], "C04: remembered history equals the reference");
+		A(T_BEH, ini1 == X.ini1, "C04: initialised-data set equals the reference");
 	}
-	__CPROVER_assert(inv1 == X.inv1, "C04: invocation bookkeeping equals the reference");
-	__CPROVER_assert(ctx.flags == X.flags1, "C04: life-cycle flags equal the reference");
+	A(T_INV, inv1 == X.inv1, "C11: invocation bookkeeping after the step equals the reference");
+	A(T_LIFE, ctx.flags == X.flags1, "C10: life-cycle flags after the step equal the reference");
 #ifdef REPLAY
 	printf("REPLAY: pre conf=0x%x hist=0x%x flags=0x%x iq=%d eq=%d | ref: kind=%d ret=%d F=0x%x exited=0x%x entered=0x%x conf'=0x%x flags'=0x%x | impl: ret=%d conf'=0x%x flags'=0x%x\n",
 	       conf0, hist0, flags0, in_iq, in_eq, X.kind, X.ret, X.F, X.st.exited, X.st.entered, X.conf1, X.flags1, ret, conf1, ctx.flags);
